@@ -240,7 +240,8 @@ def tactic(nhyps, second=False, spatial=False):
     if spatial:
         s += "dxpush; "
     s += "zeros; "
-    s += ("first [ norm_goal; fin | ids; norm_goal; fin | dxpush; norm_goal; fin "
+    s += ("first [ norm_goal; fin0 | ids; dxpush; norm_goal; condsel; norm_goal; cpush; fin0 "
+          "| norm_goal; fin | ids; norm_goal; fin | dxpush; norm_goal; fin "
           "| ids; condsel; norm_goal; fin | ids; dxpush; norm_goal; fin | norm_goal; cpush; fin "
           "| dxpush; norm_goal; cpush; fin | ids; norm_goal; condsel; norm_goal; fin "
           "| ids; dxpush; norm_goal; condsel; norm_goal; cpush; fin ]")
